@@ -202,6 +202,10 @@ def canon_bytes(obj):
 
 def check_case(idx, sl, T, v, tier, R, states):
     feats0 = CM.case_features(T, v)
+    if U.contains(T, lambda t: t[0] in ('SEQ', 'SET') and any(
+            f[2] == 'D' and M.base_of(f[1])[0] in ('SEQ', 'SET') and any(g[2] == 'D' for g in M.base_of(f[1])[1])
+            for f in t[1])):
+        feats0 = feats0 | {'default_inside_default'}
     spec = B.to_spec(T)
     rec0 = {'slice': sl, 'T': T, 'v': v}
     # plain route
@@ -234,6 +238,18 @@ def check_case(idx, sl, T, v, tier, R, states):
         return True
 
     reads = reads_for(T)
+    base = M.base_of(T)
+
+    def read_feats(op, pos, nsteps):
+        fs = {'read:' + op.split('(')[0], 'read_before_complete' if pos < nsteps else 'read_after'}
+        if base[0] == 'CHOICE' and op.split('(')[0] in ('getpos', 'getname'):
+            arg = op.split('(')[1][:-1]
+            alts = [a[0] for a in base[1]]
+            target = alts[int(arg)] if op.startswith('getpos') else arg
+            if target != v[0]:
+                fs.add('choice_read_other_alt')      # known finding: a read of a non-selected alternative selects it
+        return fs
+
     for rname, steps in routes(T, v):
         try:
             obj, nops = execute(T, v, spec, steps)
@@ -258,8 +274,7 @@ def check_case(idx, sl, T, v, tier, R, states):
                     R.violation('route.error', dict(rec0, history='%s+%s@%d' % (rname, op, pos)), exc_text(e),
                                 'route builds the value', pyasn1_site(e), feats0 | {'read:' + op.split('(')[0], 'read_before_complete' if pos < len(steps) else 'read_after'}, idx)
                     continue
-                compare('%s+%s@%d' % (rname, op, pos), o2, n2,
-                        {'read:' + op.split('(')[0], 'read_before_complete' if pos < len(steps) else 'read_after'})
+                compare('%s+%s@%d' % (rname, op, pos), o2, n2, read_feats(op, pos, len(steps)))
     # pairs of reads after the plain route
     plain_steps = next(iter(routes(T, v)))[1]
     for a, b in itertools.product(reads, repeat=2):
@@ -267,7 +282,7 @@ def check_case(idx, sl, T, v, tier, R, states):
             o2, n2 = execute(T, v, spec, plain_steps, {len(plain_steps): [a, b]})
         except Exception as e:
             continue
-        compare('plain+%s+%s' % (a, b), o2, n2, {'read:' + a.split('(')[0], 'read:' + b.split('(')[0], 'read_pair'})
+        compare('plain+%s+%s' % (a, b), o2, n2, read_feats(a, 1, 1) | read_feats(b, 1, 1) | {'read_pair'})
     # built by decoding BER forms (<= 1 departure from DER)
     if 'real10' not in feats0:
         seen = set()
@@ -308,8 +323,9 @@ def check_case(idx, sl, T, v, tier, R, states):
         except Exception as ex:
             continue              # C02's subject (round trip failure)
         if again != e:
+            from mc.model import emu
             R.violation('fixpoint.' + codec, dict(rec0, history='decode-reencode'), again.hex()[:80], e.hex()[:80],
-                        codec + '.encoder', feats0 | {'codec:' + codec}, idx)
+                        codec + '.encoder', feats0 | {'codec:' + codec} | emu.classify(T, v, codec, e), idx)
 
 
 def cases(tier):
